@@ -50,19 +50,97 @@ Proof.
 Qed.
 
 (* ================================================================== clean side layers *)
-(* the blueprints and the platform override of a component hold options only: they do not name a stage, carry an
-   `override` or `$import` section of their own, or give a repeat interval (see C07_repeat_refuted for the last one) *)
+(* the blueprints and the platform override of a component hold options only: they do not name a stage or carry an
+   `override` or `$import` section of their own.  [clean_repeat]: they give no repeat interval either - needed only for
+   the comparison with the PACKAGE's raw isRepeat (C07_config_tree), no longer for idempotence (finding F7d, repaired). *)
 Definition RI := [WA; "repeatInterval"].
 Definition IR := [WA; "isRepeat"].
 
 Definition layer_clean (l : jv) : Prop :=
-  get_path ["stage"] l = None /\ get_path ["override"] l = None /\ get_path ["$import"] l = None /\
-  get_path RI l = None /\ get_path IR l = None.
+  get_path ["stage"] l = None /\ get_path ["override"] l = None /\ get_path ["$import"] l = None.
+
+Definition no_repeat (l : jv) : Prop := get_path RI l = None /\ get_path IR l = None.
 
 Definition side_layers (d : doc) (p sk : string) (c : jv) : list jv :=
   ([bp_global d DEF; bp_stage d DEF sk; bp_global d p; bp_stage d p sk] ++ comp_override p c)%list.
 
 Definition clean (d : doc) (p sk : string) (c : jv) : Prop := Forall layer_clean (side_layers d p sk c).
+Definition clean_repeat (d : doc) (p sk : string) (c : jv) : Prop := Forall no_repeat (side_layers d p sk c).
+
+(* ------------------------------------------------------------------ comp_pre (the derivation of isRepeat) on observations *)
+(* paths at or below workflowAttributes.isRepeat *)
+Definition irp (pth : list string) : bool :=
+  match pth with k :: k2 :: _ => String.eqb k WA && String.eqb k2 "isRepeat" | _ => false end.
+
+Lemma ob_of_noz x y : ob_of (Some x) = ob_of (Some y) -> none_or_zero x = none_or_zero y.
+Proof. destruct x, y; cbn; intros H; try discriminate; try (injection H as ->); reflexivity. Qed.
+
+Lemma ob_of_leaf o x : ob_of o = OLeaf x -> (forall m, x <> JDict m) -> o = Some x.
+Proof. destruct o as [[]|]; cbn; intros H N; try discriminate; injection H as <-; try reflexivity. Qed.
+
+Lemma comp_pre_some v x : get_path RI v = Some x -> comp_pre v = set_path IR (JBool (negb (none_or_zero x))) v.
+Proof. unfold comp_pre. fold RI. intros ->. reflexivity. Qed.
+
+Lemma comp_pre_none v : get_path RI v = None -> comp_pre v = v.
+Proof. unfold comp_pre. fold RI. intros ->. reflexivity. Qed.
+
+(* away from isRepeat nothing is observed to change *)
+Lemma obs_comp_pre pth v : irp pth = false -> obs pth (comp_pre v) = obs pth v.
+Proof.
+  intros H. destruct (get_path RI v) as [x|] eqn:Ex; [|rewrite (comp_pre_none v Ex); reflexivity].
+  destruct pth as [|k pi].
+  - rewrite (comp_pre_some v x Ex). destruct v as [| | | | | |m]; try discriminate. reflexivity.
+  - destruct pi as [|k2 pi2].
+    + destruct (String.eqb k WA) eqn:Ek.
+      * apply String.eqb_eq in Ek; subst k. rewrite (comp_pre_some v x Ex).
+        destruct v as [| | | | | |m]; try discriminate.
+        unfold RI in Ex. rewrite get_path_cons_dict in Ex. destruct (lookup WA m) as [w|] eqn:Ew; [|discriminate].
+        destruct w as [| | | | | |mw]; try discriminate.
+        unfold obs, IR. cbn [set_path jdict_of]. rewrite Ew. cbn [jdict_of].
+        rewrite !get_path_cons_dict, lookup_set_key, String.eqb_refl, Ew. reflexivity.
+      * unfold obs. rewrite get_path_comp_pre; [reflexivity|]. left. intros ->. rewrite String.eqb_refl in Ek. discriminate.
+    + unfold obs. rewrite get_path_comp_pre; [reflexivity|].
+      cbn [irp] in H. destruct (String.eqb k WA) eqn:Ek.
+      * right. exists k2, pi2. split; [reflexivity|]. intros ->. cbn in H. discriminate.
+      * left. intros ->. rewrite String.eqb_refl in Ek. discriminate.
+Qed.
+
+Lemma irp_split pth : irp pth = true -> exists rest, pth = (IR ++ rest)%list.
+Proof.
+  destruct pth as [|k [|k2 r]]; cbn; try discriminate. intros H. apply andb_true_iff in H as [H1 H2].
+  apply String.eqb_eq in H1, H2. subst. exists r. reflexivity.
+Qed.
+
+(* the derivation respects "the same tree away from isRepeat" *)
+Lemma comp_pre_obs_congr a b pth :
+  obs RI a = obs RI b ->
+  (irp pth = false -> obs pth a = obs pth b) ->
+  (get_path RI a = None -> obs pth a = obs pth b) ->
+  obs pth (comp_pre a) = obs pth (comp_pre b).
+Proof.
+  intros H1 H2 H3. destruct (get_path RI a) as [x|] eqn:Ea.
+  - destruct (get_path RI b) as [y|] eqn:Eb; [|unfold obs in H1; rewrite Ea, Eb in H1; destruct x; discriminate].
+    assert (N : none_or_zero x = none_or_zero y).
+    { unfold obs in H1. rewrite Ea, Eb in H1. exact (ob_of_noz _ _ H1). }
+    destruct (irp pth) eqn:Ei.
+    + destruct (irp_split pth Ei) as [rest ->].
+      rewrite (comp_pre_some a x Ea), (comp_pre_some b y Eb), N. unfold obs.
+      rewrite !get_path_app, !get_set_path_same. reflexivity.
+    + rewrite !obs_comp_pre by exact Ei. exact (H2 eq_refl).
+  - assert (Eb : get_path RI b = None).
+    { unfold obs in H1. rewrite Ea in H1. destruct (get_path RI b) as [[]|]; try discriminate; reflexivity. }
+    rewrite (comp_pre_none a Ea), (comp_pre_none b Eb). exact (H3 eq_refl).
+Qed.
+
+(* deriving twice is deriving once *)
+Lemma comp_pre_idem v : comp_pre (comp_pre v) = comp_pre v.
+Proof.
+  destruct (get_path RI v) as [x|] eqn:Ex; [|rewrite (comp_pre_none v Ex); exact (comp_pre_none v Ex)].
+  assert (G : get_path RI (comp_pre v) = Some x).
+  { unfold RI. rewrite get_path_comp_pre; [exact Ex|]. right. exists "repeatInterval", []. split; [reflexivity|discriminate]. }
+  rewrite (comp_pre_some _ x G). apply set_path_same.
+  rewrite (comp_pre_some v x Ex). apply get_set_path_same.
+Qed.
 
 Lemma get_path_none_ext k pi v : get_path [k] v = None -> get_path (k :: pi) v = None.
 Proof.
@@ -110,14 +188,20 @@ Section Stored.
   Proof. intros H. unfold clean in Hcl. rewrite Forall_forall in Hcl. exact (Hcl l H). Qed.
 
   Lemma stored_shape : exists m, f = JDict m /\
-    c' = JDict (keep_override p c (set_key "variables" (JDict (comp_own_vars p c)) m)).
+    c' = JDict (keep_override p c (set_key "variables" (JDict (comp_own_vars p c)) (jdict_of (comp_pre (JDict m))))).
   Proof.
-    unfold store_comp_raw in Hc. rewrite Hi, Hs, Hf in Hc.
+    unfold store_comp_raw, store_comp_with in Hc. rewrite Hi, Hs, Hf in Hc.
     destruct f as [| | | | | |m]; try discriminate. injection Hc as <-. exists m. split; reflexivity.
   Qed.
 
-  Lemma stored_obs_f k pi : k <> "variables" -> k <> "override" -> obs (k :: pi) c' = obs (k :: pi) f.
-  Proof. intros K1 K2. unfold obs. rewrite (stored_option d p c sk c' f k pi Hi Hs Hc Hf K1 K2). reflexivity. Qed.
+  (* the stored component is the fold with isRepeat derived again ... *)
+  Lemma stored_obs_g k pi : k <> "variables" -> k <> "override" -> obs (k :: pi) c' = obs (k :: pi) (comp_pre f).
+  Proof. intros K1 K2. unfold obs. rewrite (stored_path d p c sk c' f k pi Hi Hs Hc Hf K1 K2). reflexivity. Qed.
+
+  (* ... hence the fold itself wherever the derivation is not observed *)
+  Lemma stored_obs_f k pi : k <> "variables" -> k <> "override" ->
+    obs (k :: pi) (comp_pre f) = obs (k :: pi) f -> obs (k :: pi) c' = obs (k :: pi) f.
+  Proof. intros K1 K2 H. rewrite (stored_obs_g k pi K1 K2). exact H. Qed.
 
   (* the `override` section of the stored component: the one for p, or none *)
   Lemma stored_override :
@@ -135,7 +219,8 @@ Section Stored.
       { apply (f_clean_path d p sk c f); [discriminate|exact Hf|]. intros l Hl. apply (clean_at l Hl). }
       rewrite (obs_none ["override"] (comp_pre c)) in O
         by (rewrite get_path_comp_pre; [exact Eo|left; discriminate]).
-      apply obs_abs_none in O. rewrite Ef in O.
+      rewrite <- (obs_comp_pre ["override"] f eq_refl) in O.
+      apply obs_abs_none in O. rewrite Ef in O. destruct (comp_pre_dict m) as [m' Em]. rewrite Em in O |- *. cbn [jdict_of].
       rewrite get_path_cons_dict, lookup_set_key. cbn [String.eqb Ascii.eqb Bool.eqb]. exact O.
   Qed.
 
@@ -171,40 +256,26 @@ Section Stored.
     cbn [get_path lookup]. rewrite E. reflexivity.
   Qed.
 
-  Lemma ob_of_noz x y : ob_of (Some x) = ob_of (Some y) -> none_or_zero x = none_or_zero y.
-  Proof. destruct x, y; cbn; intros H; try discriminate; try (injection H as ->); reflexivity. Qed.
-
-  Lemma ob_of_leaf o x : ob_of o = OLeaf x -> (forall m, x <> JDict m) -> o = Some x.
-  Proof. destruct o as [[]|]; cbn; intros H N; try discriminate; injection H as <-; try reflexivity. Qed.
-
-  (* FlowIRConcrete.__init__ on the loaded document derives isRepeat again: it finds what is stored *)
+  (* FlowIRConcrete.__init__ on the loaded document derives isRepeat again: it finds what is stored (whatever layer the
+     repeat interval came from: the stored isRepeat is already the one of the layered repeatInterval) *)
   Lemma comp_pre_stored : comp_pre c' = c'.
   Proof.
-    assert (A : forall pth, pth = RI \/ pth = IR -> obs pth c' = obs pth (comp_pre c)).
-    { intros pth Hp. assert (Hne : pth <> []) by (destruct Hp as [->| ->]; discriminate).
-      transitivity (obs pth f).
-      - destruct Hp as [->| ->]; apply stored_obs_f; discriminate.
-      - apply (f_clean_path d p sk c f pth Hne Hf). intros l Hl. destruct (clean_at l Hl) as (_ & _ & _ & H4 & H5).
-        destruct Hp as [->| ->]; assumption. }
-    pose proof (A RI (or_introl eq_refl)) as A1. pose proof (A IR (or_intror eq_refl)) as A2.
-    unfold comp_pre in A1, A2 |- *. fold RI in A1, A2 |- *.
-    destruct (get_path RI c) as [x|] eqn:Ex.
-    - change [WA; "isRepeat"] with IR in *.
-      assert (G1 : get_path RI (set_path IR (JBool (negb (none_or_zero x))) c) = Some x).
-      { pose proof (get_path_comp_pre c WA ["repeatInterval"]) as G. unfold comp_pre in G. fold RI in G. rewrite Ex in G.
-        apply G. right. exists "repeatInterval", []. split; [reflexivity|discriminate]. }
-      unfold obs in A1, A2. rewrite G1 in A1. rewrite get_set_path_same in A2.
-      destruct (get_path RI c') as [x'|] eqn:Ex'; [|destruct x; discriminate].
-      rewrite (ob_of_noz _ _ A1). apply set_path_same.
-      apply ob_of_leaf; [exact A2|discriminate].
-    - unfold obs in A1. rewrite Ex in A1. apply (obs_abs_none RI c') in A1. rewrite A1. reflexivity.
+    assert (G : forall k2, get_path [WA; k2] c' = get_path [WA; k2] (comp_pre f)).
+    { intros k2. apply (stored_path d p c sk c' f WA [k2] Hi Hs Hc Hf); discriminate. }
+    destruct (get_path RI c') as [x|] eqn:Ex; [|exact (comp_pre_none c' Ex)].
+    rewrite (comp_pre_some c' x Ex). apply set_path_same.
+    unfold RI in Ex. rewrite G in Ex. unfold IR. rewrite G.
+    assert (Ex0 : get_path RI f = Some x).
+    { unfold RI. rewrite <- Ex. symmetry. apply get_path_comp_pre. right. exists "repeatInterval", []. split; [reflexivity|discriminate]. }
+    rewrite (comp_pre_some f x Ex0). apply get_set_path_same.
   Qed.
 
   Lemma stored_not_import : is_import c' = false.
   Proof.
     unfold is_import in *.
     assert (O : obs ["$import"] c' = OAbs).
-    { rewrite stored_obs_f by discriminate. rewrite (f_clean_path d p sk c f ["$import"]); [|discriminate|exact Hf|].
+    { rewrite stored_obs_f; [|discriminate|discriminate|apply obs_comp_pre; reflexivity].
+      rewrite (f_clean_path d p sk c f ["$import"]); [|discriminate|exact Hf|].
       - apply obs_none. rewrite get_path_comp_pre by (left; discriminate).
         destruct (get_path ["$import"] c); [discriminate|reflexivity].
       - intros l Hl. apply (clean_at l Hl). }
@@ -215,12 +286,36 @@ Section Stored.
   Proof.
     unfold comp_stage_key in *.
     assert (O : obs ["stage"] c' = obs ["stage"] c).
-    { rewrite stored_obs_f by discriminate. rewrite (f_clean_path d p sk c f ["stage"]); [|discriminate|exact Hf|].
+    { rewrite stored_obs_f; [|discriminate|discriminate|apply obs_comp_pre; reflexivity].
+      rewrite (f_clean_path d p sk c f ["stage"]); [|discriminate|exact Hf|].
       - unfold obs. rewrite get_path_comp_pre by (left; discriminate). reflexivity.
       - intros l Hl. apply (clean_at l Hl). }
     unfold obs in O. destruct (get_path ["stage"] c) as [[| |z| | | |]|]; try discriminate.
     change (ob_of (Some (JInt z))) with (OLeaf (JInt z)) in O.
     apply ob_of_leaf in O; [rewrite O; exact Hs|discriminate].
+  Qed.
+
+  (* when no side layer gives a repeat interval, the fold already holds the derived isRepeat (the component's own) *)
+  Lemma comp_pre_fold_clean : clean_repeat d p sk c -> comp_pre f = f.
+  Proof.
+    intros Hr.
+    assert (A : forall pth, pth = RI \/ pth = IR -> obs pth f = obs pth (comp_pre c)).
+    { intros pth Hp. assert (Hne : pth <> []) by (destruct Hp as [->| ->]; discriminate).
+      apply (f_clean_path d p sk c f pth Hne Hf). intros l Hl.
+      unfold clean_repeat in Hr. rewrite Forall_forall in Hr. destruct (Hr l Hl) as [H4 H5].
+      destruct Hp as [->| ->]; assumption. }
+    pose proof (A RI (or_introl eq_refl)) as A1. pose proof (A IR (or_intror eq_refl)) as A2.
+    unfold comp_pre in A1, A2. fold RI in A1, A2.
+    destruct (get_path RI c) as [x|] eqn:Ex.
+    - change [WA; "isRepeat"] with IR in *.
+      assert (G1 : get_path RI (set_path IR (JBool (negb (none_or_zero x))) c) = Some x).
+      { pose proof (get_path_comp_pre c WA ["repeatInterval"]) as G. unfold comp_pre in G. fold RI in G. rewrite Ex in G.
+        apply G. right. exists "repeatInterval", []. split; [reflexivity|discriminate]. }
+      unfold obs in A1, A2. rewrite G1 in A1. rewrite get_set_path_same in A2.
+      destruct (get_path RI f) as [x'|] eqn:Ex'; [|destruct x; discriminate].
+      rewrite (comp_pre_some f x' Ex'), (ob_of_noz _ _ A1). apply set_path_same.
+      apply ob_of_leaf; [exact A2|discriminate].
+    - unfold obs in A1. rewrite Ex in A1. apply (obs_abs_none RI f) in A1. exact (comp_pre_none f A1).
   Qed.
 
   (* ---------------------------------------------------------------- re-folding the stored component *)
@@ -257,7 +352,32 @@ Section Stored.
     - destruct (obs_XY k pi) as [[-> ->]|[-> ->]]; [left|right]; split; reflexivity.
     - destruct Hov as [->| ->]; [left|right]; reflexivity.
   Qed.
+
+  (* the same for a layer that looks like the STORED component (the fold with isRepeat derived again), wherever the
+     derivation is not observed: away from isRepeat, or when the fold has no repeat interval *)
+  Lemma refold_obs_stored B cp' ov' f' k pi :
+    k <> "variables" -> k <> "override" ->
+    obs (k :: pi) cp' = obs (k :: pi) c' ->
+    (irp (k :: pi) = false \/ get_path RI f = None) ->
+    (ov' = comp_override p c \/ ov' = []) ->
+    fold_override (Some B) ([bg; bs; X; Y; cp'] ++ ov') = Some f' ->
+    obs (k :: pi) f' = comb (obs (k :: pi) B) (obs (k :: pi) f).
+  Proof.
+    intros K1 K2 Hcp Hir Hov Hf'. apply (refold_obs B cp' ov' f' k pi); [|exact Hov|exact Hf'].
+    rewrite Hcp. apply (stored_obs_f k pi K1 K2).
+    destruct Hir as [Hir|Hn]; [apply obs_comp_pre; exact Hir|rewrite (comp_pre_none f Hn); reflexivity].
+  Qed.
 End Stored.
+
+Lemma comb_abs_inv a b : comb a b = OAbs -> a = OAbs /\ b = OAbs.
+Proof. destruct a as [|[]|], b as [|[]|]; cbn; intros H; try discriminate; split; reflexivity. Qed.
+
+Lemma fold_exists d p sk c c' : is_import c = false -> comp_stage_key c = Some sk -> store_comp_raw d p c = Some c' ->
+  exists f, fold_override (Some (JDict [])) (store_layers d p sk c) = Some f.
+Proof.
+  intros Hi Hs Hc. unfold store_comp_raw, store_comp_with in Hc. rewrite Hi, Hs in Hc.
+  destruct (fold_override (Some (JDict [])) (store_layers d p sk c)) as [f|]; [exists f; reflexivity|discriminate].
+Qed.
 
 (* ================================================================== (i) store . load . store = store, per component *)
 Lemma alist_eq_update_again (a b : alist) : alist_eq (update (update a b) b) (update a b).
@@ -273,25 +393,22 @@ Lemma store_comp_idem d d2 p sk c c' c'' bg bs :
   jeq c'' c'.
 Proof.
   intros Hi Hs Hc Hcl Hbg Hbs D1 D2 DXY Hc2.
-  assert (Hf : exists f, fold_override (Some (JDict [])) (store_layers d p sk c) = Some f).
-  { unfold store_comp_raw in Hc. rewrite Hi, Hs in Hc.
-    destruct (fold_override (Some (JDict [])) (store_layers d p sk c)) as [f|]; [exists f; reflexivity|discriminate]. }
-  destruct Hf as [f Hf].
+  destruct (fold_exists d p sk c c' Hi Hs Hc) as [f Hf].
   pose proof (stored_not_import d p sk c c' f Hi Hs Hc Hf Hcl) as Hi'.
   pose proof (stored_stage d p sk c c' f Hi Hs Hc Hf Hcl) as Hs'.
-  pose proof (comp_pre_stored d p sk c c' f Hi Hs Hc Hf Hcl) as Hpre.
+  pose proof (comp_pre_stored d p sk c c' f Hi Hs Hc Hf) as Hpre.
   pose proof (stored_comp_override d p sk c c' f Hi Hs Hc Hf Hcl) as Hov.
   pose proof (stored_override d p sk c c' f Hi Hs Hc Hf Hcl) as Hso.
   destruct (stored_shape d p sk c c' f Hi Hs Hc Hf) as (m & Ef & Ec).
-  unfold store_comp_raw in Hc2. rewrite Hi', Hs' in Hc2.
-  destruct (fold_override (Some (JDict [])) (store_layers d2 p sk c')) as [f'|] eqn:Hf'; [|discriminate].
-  destruct f' as [| | | | | |m']; try discriminate. injection Hc2 as <-.
+  destruct (fold_exists d2 p sk c' c'' Hi' Hs' Hc2) as [f' Hf'].
+  destruct (stored_shape d2 p sk c' c'' f' Hi' Hs' Hc2 Hf') as (m' & Ef' & Ec'').
+  pose proof Hf' as Hf0.
   unfold store_layers in Hf'. rewrite D1, D2, Hpre, Hov in Hf'.
   assert (HXY : (bp_global d2 p = bg /\ bp_stage d2 p sk = bs) \/ (bp_global d2 p = JDict [] /\ bp_stage d2 p sk = JDict [])) by exact DXY.
-  intros [|k pi]; [rewrite Ec; reflexivity|].
+  intros [|k pi]; [rewrite Ec, Ec''; reflexivity|].
   destruct (String.eqb k "variables") eqn:Kv.
   { apply String.eqb_eq in Kv; subst k.
-    unfold obs. rewrite get_path_keep_override by discriminate.
+    unfold obs. rewrite Ec''. rewrite get_path_keep_override by discriminate.
     rewrite Ec at 2. rewrite get_path_keep_override by discriminate.
     rewrite !get_path_cons_dict, !lookup_set_key, !String.eqb_refl.
     destruct (stored_vars_ok_clean d p sk c c' f Hi Hs Hc Hf Hcl p (or_intror eq_refl)) as [V1 V2].
@@ -302,13 +419,13 @@ Proof.
   assert (Kv' : k <> "variables") by (intros ->; discriminate).
   destruct (String.eqb k "override") eqn:Ko.
   { apply String.eqb_eq in Ko; subst k.
-    unfold obs. rewrite !(get_path_via "override" pi). unfold keep_override at 1. rewrite Hso.
+    unfold obs. rewrite !(get_path_via "override" pi). rewrite Ec'' at 1. unfold keep_override at 1. rewrite Hso.
     destruct (get_path ["override"; p] c) as [op|] eqn:Eop.
     - cbn [get_path lookup]. rewrite String.eqb_refl.
       rewrite lookup_set_key, String.eqb_refl. reflexivity.
     - (* neither the stored component nor any layer of the reloaded document has an override section *)
       rewrite get_path_cons_dict, lookup_set_key. cbn [String.eqb Ascii.eqb Bool.eqb].
-      assert (O : obs ["override"] (JDict m') = OAbs).
+      assert (O : obs ["override"] f' = OAbs).
       { rewrite (fold_override_obs ["override"] _ _ _ Hf'), obs_empty. fold (prod (map (obs ["override"]) ([bg; bs; bp_global d2 p; bp_stage d2 p sk; c'] ++ comp_override p c))).
         apply prod_allabs. intros o Ho. apply in_map_iff in Ho as (l & <- & Hl).
         assert (Cg : obs ["override"] bg = OAbs).
@@ -324,65 +441,79 @@ Proof.
         - destruct DXY as [[-> _]|[-> _]]; [exact Cg|reflexivity].
         - destruct DXY as [[_ ->]|[_ ->]]; [exact Cs|reflexivity].
         - apply obs_none. exact Hso. }
-      apply obs_abs_none in O. cbn [get_path] in O. destruct (lookup "override" m'); [discriminate|reflexivity]. }
+      rewrite <- (obs_comp_pre ["override"] f' eq_refl) in O.
+      apply obs_abs_none in O. rewrite Ef' in O. destruct (comp_pre_dict m') as [m2 Em2]. rewrite Em2 in O |- *. cbn [jdict_of].
+      cbn [get_path] in O. destruct (lookup "override" m2); [discriminate|reflexivity]. }
   assert (Ko' : k <> "override") by (intros ->; discriminate).
-  transitivity (obs (k :: pi) (JDict m')).
-  { unfold obs. rewrite get_path_keep_override by exact Ko'. rewrite (get_path_set_other Kv'). reflexivity. }
-  rewrite (refold_obs d p sk c f Hf bg bs (bp_global d2 p) (bp_stage d2 p sk) Hbg Hbs HXY (JDict []) c' (comp_override p c) (JDict m') k pi).
-  - rewrite obs_empty, comb_abs_l. symmetry. apply (stored_obs_f d p sk c c' f Hi Hs Hc Hf k pi Kv' Ko').
-  - apply (stored_obs_f d p sk c c' f Hi Hs Hc Hf k pi Kv' Ko').
-  - left. reflexivity.
-  - exact Hf'.
+  rewrite (stored_obs_g d2 p sk c' c'' f' Hi' Hs' Hc2 Hf0 k pi Kv' Ko').
+  rewrite (stored_obs_g d p sk c c' f Hi Hs Hc Hf k pi Kv' Ko').
+  assert (R : forall k0 pi0, k0 <> "variables" -> k0 <> "override" -> (irp (k0 :: pi0) = false \/ get_path RI f = None) ->
+              obs (k0 :: pi0) f' = obs (k0 :: pi0) f).
+  { intros k0 pi0 A1 A2 A3.
+    rewrite (refold_obs_stored d p sk c c' f Hi Hs Hc Hf bg bs (bp_global d2 p) (bp_stage d2 p sk) Hbg Hbs HXY
+               (JDict []) c' (comp_override p c) f' k0 pi0 A1 A2 eq_refl A3 (or_introl eq_refl) Hf').
+    rewrite obs_empty, comb_abs_l. reflexivity. }
+  assert (R1 : obs RI f' = obs RI f) by (apply R; [discriminate|discriminate|left; reflexivity]).
+  apply comp_pre_obs_congr.
+  - exact R1.
+  - intros Hir. apply R; [exact Kv'|exact Ko'|left; exact Hir].
+  - intros Hn. apply R; [exact Kv'|exact Ko'|right].
+    unfold obs in R1 at 1. rewrite Hn in R1. symmetry in R1. exact (obs_abs_none RI f R1).
 Qed.
 
 (* ================================================================== (ii) the layered configuration as a tree *)
-Lemma reload_merged_jeq dflt d p q sk c c' bg bs X Y vl vl' r r' :
-  is_import c = false -> comp_stage_key c = Some sk ->
-  store_comp_raw d p c = Some c' -> clean d p sk c ->
-  fl_bp_global d p = Some bg -> fl_bp_stage d p sk = Some bs ->
-  ((X = bg /\ Y = bs) \/ (X = JDict [] /\ Y = JDict [])) ->
-  q = DEF \/ q = p ->
-  alist_eq (layer_vars vl') (layer_vars vl) ->
-  merged_of (opt_layers dflt d p sk c) vl = Some r ->
-  merged_of ([builtin dflt; bg; bs; X; Y; comp_layer c'] ++ comp_override q c') vl' = Some r' ->
-  jeq r' r.
-Proof.
-  intros Hi Hs Hc Hcl Hbg Hbs HXY Hq Hv Hr Hr'.
-  assert (Hf : exists f, fold_override (Some (JDict [])) (store_layers d p sk c) = Some f).
-  { unfold store_comp_raw in Hc. rewrite Hi, Hs in Hc.
-    destruct (fold_override (Some (JDict [])) (store_layers d p sk c)) as [f|]; [exists f; reflexivity|discriminate]. }
-  destruct Hf as [f Hf].
-  pose proof (comp_pre_stored d p sk c c' f Hi Hs Hc Hf Hcl) as Hpre.
-  assert (Hov : comp_override q c' = comp_override p c \/ comp_override q c' = []).
-  { destruct (String.eqb DEF p) eqn:Edp.
+Section Merged.
+  Variables (dflt : jv) (d : doc) (p q sk : string) (c c' f bg bs X Y B : jv) (m0 m1 : alist).
+  Hypothesis Hi : is_import c = false.
+  Hypothesis Hs : comp_stage_key c = Some sk.
+  Hypothesis Hc : store_comp_raw d p c = Some c'.
+  Hypothesis Hf : fold_override (Some (JDict [])) (store_layers d p sk c) = Some f.
+  Hypothesis Hcl : clean d p sk c.
+  Hypothesis Hbg : fl_bp_global d p = Some bg.
+  Hypothesis Hbs : fl_bp_stage d p sk = Some bs.
+  Hypothesis HXY : (X = bg /\ Y = bs) \/ (X = JDict [] /\ Y = JDict []).
+  Hypothesis Hq : q = DEF \/ q = p.
+  (* the package's layering and the reloaded document's, above the built-in layer B *)
+  Hypothesis F0 : fold_override (Some B)
+                    ([bp_global d DEF; bp_stage d DEF sk; bp_global d p; bp_stage d p sk; comp_layer c] ++ comp_override p c) = Some (JDict m0).
+  Hypothesis F1 : fold_override (Some B) ([bg; bs; X; Y; comp_layer c'] ++ comp_override q c') = Some (JDict m1).
+
+  Lemma merged_ov : comp_override q c' = comp_override p c \/ comp_override q c' = [].
+  Proof.
+    destruct (String.eqb DEF p) eqn:Edp.
     - apply String.eqb_eq in Edp. left. destruct Hq as [->| ->]; [rewrite Edp|]; apply (stored_comp_override d p sk c c' f Hi Hs Hc Hf Hcl).
     - destruct Hq as [->| ->]; [right; apply (stored_comp_override_def d p sk c c' f Hi Hs Hc Hf Hcl Edp)|
-                                left; apply (stored_comp_override d p sk c c' f Hi Hs Hc Hf Hcl)]. }
-  unfold merged_of in Hr, Hr'.
-  destruct (fold_override (Some (JDict [])) (opt_layers dflt d p sk c)) as [[| | | | | |m0]|] eqn:F0; try discriminate.
-  destruct (fold_override (Some (JDict [])) ([builtin dflt; bg; bs; X; Y; comp_layer c'] ++ comp_override q c')) as [[| | | | | |m1]|] eqn:F1;
-    try discriminate.
-  injection Hr as <-. injection Hr' as <-.
-  intros [|k pi]; [reflexivity|].
-  destruct (String.eqb k "variables") eqn:Kv.
-  { apply String.eqb_eq in Kv; subst k. unfold obs. rewrite !get_path_cons_dict, !lookup_set_key, !String.eqb_refl.
-    apply (jeq_alist _ _ Hv pi). }
-  assert (Kv' : k <> "variables") by (intros ->; discriminate).
-  unfold obs. rewrite !(get_path_set_other Kv'). fold (obs (k :: pi) (JDict m1)). fold (obs (k :: pi) (JDict m0)).
-  (* split off the built-in layer *)
-  change ([builtin dflt; bg; bs; X; Y; comp_layer c'] ++ comp_override q c')%list
-    with (builtin dflt :: ([bg; bs; X; Y; comp_layer c'] ++ comp_override q c'))%list in F1.
-  unfold opt_layers in F0.
-  change ([builtin dflt; bp_global d "default"; bp_stage d "default" sk; bp_global d p; bp_stage d p sk; comp_layer c] ++ comp_override p c)%list
-    with (builtin dflt :: ([bp_global d DEF; bp_stage d DEF sk; bp_global d p; bp_stage d p sk; comp_layer c] ++ comp_override p c))%list in F0.
-  change (fold_override (override (JDict []) (builtin dflt)) ([bg; bs; X; Y; comp_layer c'] ++ comp_override q c') = Some (JDict m1)) in F1.
-  change (fold_override (override (JDict []) (builtin dflt))
-            ([bp_global d DEF; bp_stage d DEF sk; bp_global d p; bp_stage d p sk; comp_layer c] ++ comp_override p c) = Some (JDict m0)) in F0.
-  destruct (override (JDict []) (builtin dflt)) as [B|]; [|rewrite fold_override_none in F0; discriminate].
-  rewrite (fold_override_obs (k :: pi) _ _ _ F0), fold_comb_prod.
-  destruct (String.eqb k "override") eqn:Ko.
-  { (* no layer but the built-in one has an override section *)
-    apply String.eqb_eq in Ko; subst k.
+                                left; apply (stored_comp_override d p sk c c' f Hi Hs Hc Hf Hcl)].
+  Qed.
+
+  Lemma obs_comp_layer x k pi : k <> "override" -> obs (k :: pi) (comp_layer x) = obs (k :: pi) (comp_pre x).
+  Proof.
+    intros Ko. unfold comp_layer. destruct (comp_pre x); try reflexivity. unfold obs. rewrite get_path_remove_other by exact Ko. reflexivity.
+  Qed.
+
+  (* the package's layered configuration is the built-in layer combined with the stored fold *)
+  Lemma merged_pkg_obs k pi : k <> "override" ->
+    obs (k :: pi) (JDict m0) = comb (obs (k :: pi) B) (obs (k :: pi) f).
+  Proof.
+    intros Ko. rewrite (fold_override_obs (k :: pi) _ _ _ F0), fold_comb_prod. f_equal.
+    rewrite (obs_f_prod d p sk c f Hf k pi). rewrite map_app. cbn [map]. rewrite (obs_comp_layer c k pi Ko). reflexivity.
+  Qed.
+
+  (* ... and so is the reloaded document's, wherever the derivation of isRepeat is not observed *)
+  Lemma merged_reload_obs k pi : k <> "variables" -> k <> "override" ->
+    (irp (k :: pi) = false \/ get_path RI f = None) ->
+    obs (k :: pi) (JDict m1) = comb (obs (k :: pi) B) (obs (k :: pi) f).
+  Proof.
+    intros Kv Ko Hir.
+    apply (refold_obs_stored d p sk c c' f Hi Hs Hc Hf bg bs X Y Hbg Hbs HXY B (comp_layer c') (comp_override q c') (JDict m1) k pi
+             Kv Ko); [|exact Hir|exact merged_ov|exact F1].
+    rewrite (obs_comp_layer c' k pi Ko), (comp_pre_stored d p sk c c' f Hi Hs Hc Hf). reflexivity.
+  Qed.
+
+  (* no layer but the built-in one has an override section *)
+  Lemma merged_override_obs pi : obs ("override" :: pi) (JDict m1) = obs ("override" :: pi) (JDict m0).
+  Proof.
+    rewrite (fold_override_obs ("override" :: pi) _ _ _ F0), fold_comb_prod.
     rewrite (fold_override_obs ("override" :: pi) _ _ _ F1), fold_comb_prod. f_equal.
     assert (Cl : forall l, In l (side_layers d p sk c) -> obs ("override" :: pi) l = OAbs).
     { intros l Hl. apply obs_none, get_path_none_ext. apply (clean_at d p sk c Hcl l Hl). }
@@ -402,11 +533,109 @@ Proof.
         * destruct HXY as [[-> _]|[-> _]]; [exact Cg|reflexivity].
         * destruct HXY as [[_ ->]|[_ ->]]; [exact Cs|reflexivity].
         * apply Ccl.
-      + destruct Hov as [E|E]; rewrite E in Hl; [|destruct Hl]. apply Cl. unfold side_layers. apply in_or_app. right. exact Hl. }
+      + destruct merged_ov as [E|E]; rewrite E in Hl; [|destruct Hl]. apply Cl. unfold side_layers. apply in_or_app. right. exact Hl.
+  Qed.
+
+  (* away from isRepeat (or when no layer gives a repeat interval at all) the two layerings agree *)
+  Lemma merged_obs_eq k pi : k <> "variables" ->
+    (irp (k :: pi) = false \/ get_path RI f = None) ->
+    obs (k :: pi) (JDict m1) = obs (k :: pi) (JDict m0).
+  Proof.
+    intros Kv Hir. destruct (String.eqb k "override") eqn:Ko.
+    - apply String.eqb_eq in Ko; subst k. apply merged_override_obs.
+    - assert (Ko' : k <> "override") by (intros ->; discriminate).
+      rewrite (merged_reload_obs k pi Kv Ko' Hir), (merged_pkg_obs k pi Ko'). reflexivity.
+  Qed.
+End Merged.
+
+Lemma merged_split dflt rest vls r :
+  merged_of (builtin dflt :: rest) vls = Some r ->
+  exists B m, override (JDict []) (builtin dflt) = Some B /\ fold_override (Some B) rest = Some (JDict m) /\
+              r = JDict (set_key "variables" (JDict (layer_vars vls)) m).
+Proof.
+  unfold merged_of. intros H.
+  change (fold_override (Some (JDict [])) (builtin dflt :: rest)) with (fold_override (override (JDict []) (builtin dflt)) rest) in H.
+  destruct (override (JDict []) (builtin dflt)) as [B|]; [|rewrite fold_override_none in H; discriminate].
+  destruct (fold_override (Some B) rest) as [[| | | | | |m]|] eqn:F; try discriminate.
+  injection H as <-. exists B, m. split; [reflexivity|split; [exact F|reflexivity]].
+Qed.
+
+(* the raw layered configurations after the derivation of isRepeat that every resolution performs (inject_all): the
+   same tree, whatever layer gives the repeat interval *)
+Lemma reload_merged_derived_jeq dflt d p q sk c c' bg bs X Y vl vl' r r' :
+  is_import c = false -> comp_stage_key c = Some sk ->
+  store_comp_raw d p c = Some c' -> clean d p sk c ->
+  fl_bp_global d p = Some bg -> fl_bp_stage d p sk = Some bs ->
+  ((X = bg /\ Y = bs) \/ (X = JDict [] /\ Y = JDict [])) ->
+  q = DEF \/ q = p ->
+  alist_eq (layer_vars vl') (layer_vars vl) ->
+  merged_of (opt_layers dflt d p sk c) vl = Some r ->
+  merged_of ([builtin dflt; bg; bs; X; Y; comp_layer c'] ++ comp_override q c') vl' = Some r' ->
+  jeq (comp_pre r') (comp_pre r).
+Proof.
+  intros Hi Hs Hc Hcl Hbg Hbs HXY Hq Hv Hr Hr'.
+  destruct (fold_exists d p sk c c' Hi Hs Hc) as [f Hf].
+  destruct (merged_split dflt _ vl r Hr) as (B & m0 & HB & F0 & ->).
+  destruct (merged_split dflt _ vl' r' Hr') as (B' & m1 & HB' & F1 & ->).
+  rewrite HB in HB'. injection HB' as <-.
+  set (R1 := JDict (set_key "variables" (JDict (layer_vars vl')) m1)).
+  set (R0 := JDict (set_key "variables" (JDict (layer_vars vl)) m0)).
+  assert (Ov : forall k pi, k <> "variables" -> obs (k :: pi) R1 = obs (k :: pi) (JDict m1) /\ obs (k :: pi) R0 = obs (k :: pi) (JDict m0)).
+  { intros k pi Kv. unfold obs, R1, R0. rewrite !(get_path_set_other Kv). split; reflexivity. }
+  assert (E : forall k pi, k <> "variables" -> (irp (k :: pi) = false \/ get_path RI f = None) -> obs (k :: pi) R1 = obs (k :: pi) R0).
+  { intros k pi Kv Hir. destruct (Ov k pi Kv) as [-> ->].
+    exact (merged_obs_eq d p q sk c c' f bg bs X Y B m0 m1 Hi Hs Hc Hf Hcl Hbg Hbs HXY Hq F0 F1 k pi Kv Hir). }
+  assert (E1 : obs RI R1 = obs RI R0) by (apply E; [discriminate|left; reflexivity]).
+  intros pth. apply comp_pre_obs_congr; [exact E1| |].
+  - intros Hir. destruct pth as [|k pi]; [reflexivity|].
+    destruct (String.eqb k "variables") eqn:Kv.
+    + apply String.eqb_eq in Kv; subst k. unfold obs, R1, R0. rewrite !get_path_cons_dict, !lookup_set_key, !String.eqb_refl.
+      apply (jeq_alist _ _ Hv pi).
+    + apply E; [intros ->; discriminate|left; exact Hir].
+  - intros Hn. destruct pth as [|k pi]; [reflexivity|].
+    destruct (String.eqb k "variables") eqn:Kv.
+    + apply String.eqb_eq in Kv; subst k. unfold obs, R1, R0. rewrite !get_path_cons_dict, !lookup_set_key, !String.eqb_refl.
+      apply (jeq_alist _ _ Hv pi).
+    + apply E; [intros ->; discriminate|right].
+      (* no repeat interval in the reloaded layering: none in the package's, none in the stored fold *)
+      unfold obs in E1 at 1. rewrite Hn in E1. symmetry in E1.
+      destruct (Ov WA ["repeatInterval"]) as [_ O0]; [discriminate|]. unfold RI in E1. rewrite O0 in E1.
+      rewrite (merged_pkg_obs d p sk c f B m0 Hf F0 WA ["repeatInterval"]) in E1 by discriminate.
+      apply comb_abs_inv in E1 as [_ E1]. exact (obs_abs_none RI f E1).
+Qed.
+
+(* when no side layer gives a repeat interval the derivation changes nothing: the raw layered configurations themselves
+   are the same tree, isRepeat included *)
+Lemma reload_merged_jeq dflt d p q sk c c' bg bs X Y vl vl' r r' :
+  is_import c = false -> comp_stage_key c = Some sk ->
+  store_comp_raw d p c = Some c' -> clean d p sk c -> clean_repeat d p sk c ->
+  fl_bp_global d p = Some bg -> fl_bp_stage d p sk = Some bs ->
+  ((X = bg /\ Y = bs) \/ (X = JDict [] /\ Y = JDict [])) ->
+  q = DEF \/ q = p ->
+  alist_eq (layer_vars vl') (layer_vars vl) ->
+  merged_of (opt_layers dflt d p sk c) vl = Some r ->
+  merged_of ([builtin dflt; bg; bs; X; Y; comp_layer c'] ++ comp_override q c') vl' = Some r' ->
+  jeq r' r.
+Proof.
+  intros Hi Hs Hc Hcl Hrp Hbg Hbs HXY Hq Hv Hr Hr'.
+  destruct (fold_exists d p sk c c' Hi Hs Hc) as [f Hf].
+  pose proof (comp_pre_fold_clean d p sk c f Hf Hrp) as Hpf.
+  destruct (merged_split dflt _ vl r Hr) as (B & m0 & HB & F0 & ->).
+  destruct (merged_split dflt _ vl' r' Hr') as (B' & m1 & HB' & F1 & ->).
+  rewrite HB in HB'. injection HB' as <-.
+  intros [|k pi]; [reflexivity|].
+  destruct (String.eqb k "variables") eqn:Kv.
+  { apply String.eqb_eq in Kv; subst k. unfold obs. rewrite !get_path_cons_dict, !lookup_set_key, !String.eqb_refl.
+    apply (jeq_alist _ _ Hv pi). }
+  assert (Kv' : k <> "variables") by (intros ->; discriminate).
+  unfold obs. rewrite !(get_path_set_other Kv'). fold (obs (k :: pi) (JDict m1)). fold (obs (k :: pi) (JDict m0)).
+  destruct (String.eqb k "override") eqn:Ko.
+  { apply String.eqb_eq in Ko; subst k.
+    exact (merged_override_obs d p q sk c c' f bg bs X Y B m0 m1 Hi Hs Hc Hf Hcl Hbg Hbs HXY Hq F0 F1 pi). }
   assert (Ko' : k <> "override") by (intros ->; discriminate).
-  assert (Ecl : forall x, obs (k :: pi) (comp_layer x) = obs (k :: pi) (comp_pre x)).
-  { intros x. unfold comp_layer. destruct (comp_pre x); try reflexivity. unfold obs. rewrite get_path_remove_other by exact Ko'. reflexivity. }
-  rewrite (refold_obs d p sk c f Hf bg bs X Y Hbg Hbs HXY B (comp_layer c') (comp_override q c') (JDict m1) k pi); [| |exact Hov|exact F1].
-  - f_equal. rewrite (obs_f_prod d p sk c f Hf k pi). rewrite map_app. cbn [map]. rewrite Ecl. reflexivity.
-  - rewrite Ecl, Hpre. apply (stored_obs_f d p sk c c' f Hi Hs Hc Hf k pi Kv' Ko').
+  rewrite (merged_pkg_obs d p sk c f B m0 Hf F0 k pi Ko').
+  apply (refold_obs d p sk c f Hf bg bs X Y Hbg Hbs HXY B (comp_layer c') (comp_override q c') (JDict m1) k pi);
+    [|exact (merged_ov d p q sk c c' f bg bs X Y B m1 Hi Hs Hc Hf Hcl Hq F1)|exact F1].
+  rewrite (obs_comp_layer c' k pi Ko'), (comp_pre_stored d p sk c c' f Hi Hs Hc Hf).
+  apply (stored_obs_f d p sk c c' f Hi Hs Hc Hf k pi Kv' Ko'). rewrite Hpf. reflexivity.
 Qed.
